@@ -128,9 +128,12 @@ DOMAIN = {
     "u_cell_delimiters": _delims, "v_cell_delimiters": _delims, "z_cell_delimiters": _delims,
     "octree_cells": _octree_cells, "layers": _layers, "prisms": _prisms,
     "collar": lambda r, e: [fval(r), fval(r), fval(r)],
-    "cost": lambda r, e: r.choice([r.randrange(1, 100) / 2.0, r.randrange(1, 100)]),      # the setter accepts float or int
+    # the setter accepts float or int; after an int a fractional value follows (the stored type must follow the value)
+    "cost": lambda r, e: (r.randrange(1, 100) + 0.25) if isinstance(getattr(e, "cost", None), (int, np.integer)) and not isinstance(getattr(e, "cost", None), bool)
+    else r.choice([r.randrange(1, 100) / 2.0, r.randrange(1, 100)]),
     "planning": lambda r, e: r.choice(["Default", "Ongoing", "Planned", "Completed", "No status"]),
-    "end_of_hole": lambda r, e: r.choice([r.randrange(1, 100) / 2.0, r.randrange(1, 100)]),
+    "end_of_hole": lambda r, e: (r.randrange(1, 100) + 0.25) if isinstance(getattr(e, "end_of_hole", None), (int, np.integer))
+    else r.choice([r.randrange(1, 100) / 2.0, r.randrange(1, 100)]),
     "surveys": _surveys,
     "default_collocation_distance": lambda r, e: r.choice([0.01, 0.5]),
     "values": _values,
@@ -159,6 +162,7 @@ INVALID = {
     "u_count": lambda r, e: 3, "value_map": lambda r, e: {0: "not unknown"}, "coordinate_reference_system": lambda r, e: {"Code": "x"},
     "options": lambda r, e: "text", "values": lambda r, e: "x" if not isinstance(getattr(e, "values", None), str) and e.__class__.__name__ in ("FloatData", "IntegerData") else (_ for _ in ()).throw(Skip()),
 }
+TYPE_VARYING = {"cost", "end_of_hole"}
 COUPLED = {"dip", "vertical", "surveys", "end_of_hole", "metadata", "coordinate_reference_system", "parts", "cells", "values", "vertices", "collar", "octree_cells",
            "u_count", "v_count", "w_count", "value_map", "color_map", "options", "number_of_bins", "units"}
 DERIVED = ["centroids", "n_cells", "extent", "locations", "n_vertices", "shape"]
@@ -243,7 +247,10 @@ class SetterScenario(BaseScenario):
             return ("entity", ent.uid)
         if kind == "obj":
             args = build.gen_object_args(rng, what)
-            ent = getattr(objects, what).create(ws, parent=holder, **build.object_kwargs(args))
+            kwargs = build.object_kwargs(args)
+            if what == "Drillhole" and rng.random() < 0.5:
+                kwargs.update({"cost": rng.randrange(1, 50), "end_of_hole": rng.randrange(50, 200)})     # whole numbers given as int at creation
+            ent = getattr(objects, what).create(ws, parent=holder, **kwargs)
             return ("entity", ent.uid)
         pts = objects.Points.create(ws, parent=holder, vertices=np.array([[fval(rng), fval(rng), fval(rng)] for _ in range(4)]), name="pts")
         if kind == "dat":
@@ -503,6 +510,13 @@ class SetterScenario(BaseScenario):
             gen = INVALID.get(attr) if invalid else DOMAIN[attr]
             if gen is None:
                 return "skipped"
+            if not invalid and attr in TYPE_VARYING and r.random() < 0.5:
+                # the attribute takes int or float: an int first, so that the judged assignment changes the stored number type
+                try:
+                    setattr(owner, attr, r.randrange(1, 100))
+                    sim.probe("number_type_changed")
+                except Exception:  # pylint: disable=broad-except
+                    pass
             value = gen(r, owner)
         except Skip:
             return "skipped"
